@@ -8,8 +8,12 @@ Cases             spec/maps/FiniteMapMC.tla         TLC enumerates every script 
                   seeded random histories (50..3000 ops, thorough: up to tens of thousands of keys) sized to cross every
                   growth threshold, with mutations inside range loops
 Real code         harness/c06/main.go compiled by the llgo built from the working tree (O0; thorough: O2*, nogc): one generic
-                  script interpreter instantiated for 6 key types x 3 value sizes; logs every call's result and the scalars
-                  of the runtime's hmap header
+                  script interpreter instantiated for 10 key types x 3 value sizes; logs every call's result and the scalars
+                  of the runtime's hmap header.  Key types 6..8 (complex128, struct{c complex64; i int32}, [2]float32) carry
+                  floating-point parts inside a complex number / aggregate (+0 = -0 per part, NaN in any part = a key that is
+                  never found); besides the TLC-enumerated scripts and the seeded histories they get a FIXED family of
+                  histories (seed-independent keys "fix:nangrow:..."): a range loop over a map holding NaN-keyed entries whose
+                  body inserts enough keys to make the table grow
 Layer B           spec/maps/MapGrowth.tla           scalar growth model (count, B, growing); drift is reported, never a verdict
 Reference Go      runs the same scripts; its histories must be accepted by the spec too (else the spec is wrong: exit 2)
 """
@@ -26,7 +30,13 @@ from . import common as C
 SPEC = os.path.join(C.VERIF, "spec", "maps")
 HARN = os.path.join(C.VERIF, "harness", "c06")
 
-KT = ["int", "string", "float64", "any", "[2]int", "struct"]
+KT = ["int", "string", "float64", "any", "[2]int", "struct", "complex128", "cstruct", "[2]float32", "iface"]
+NKT = len(KT)
+PART_TY = {"complex64", "complex128", "cstruct", "[2]float32"}      # keys compared part by part (FiniteMap.PartTy)
+NAN_KT = (2, 3, 6, 7, 8)                                            # key types whose universe has NaN keys
+KT_IFACE = 9          # map[keyer]V, keyer = interface{ id() int }: dynamic types *cell, pbox = struct{p *cell}, ival, sbox, nil
+NCELLS = 4096
+PTR_TY = {"*cell", "pbox"}                                          # pointer-shaped dynamic types (FiniteMap.PtrTy)
 VT = ["z", "i", "b"]          # struct{} (0 bytes), int (8), [17]int64 (136, stored indirectly)
 STRLENS = [0, 1, 3, 4, 6, 8, 12, 16, 17, 40, 49, 100]
 ALPHA = "abcdefghijklmnopqrstuvwxyz"
@@ -50,6 +60,49 @@ def f64bits(i):
     if i in sp:
         return sp[i]
     return struct.unpack(">Q", struct.pack(">d", (i - 6) * 0.5))[0]
+
+
+def f32token(bits):
+    if bits == 0:
+        return "+0"
+    if bits == 1 << 31:
+        return "-0"
+    if (bits >> 23) & 0xff == 0xff and bits & ((1 << 23) - 1):
+        return "NaN"
+    return "b%08x" % bits
+
+
+def f32b(x):
+    return struct.unpack(">I", struct.pack(">f", x))[0]
+
+
+def f64b(x):
+    return struct.unpack(">Q", struct.pack(">d", x))[0]
+
+
+PZ, NZ, NAN, NAN2, PINF, NINF = 0, 1 << 63, 0x7ff8000000000001, 0xfff8000000000000, 0x7ff0000000000000, 0xfff0000000000000
+PZ32, NZ32, NAN32 = 0, 1 << 31, 0x7fc00001
+C128 = [(PZ, PZ), (NAN, PZ), (NZ, NZ), (PZ, NAN), (PZ, NZ), (NAN, NAN), (f64b(1.0), NAN), (PINF, NZ), (NZ, f64b(1.0)),
+        (PZ, f64b(1.0)), (NAN2, f64b(2.0)), (NINF, PINF)]
+CST = [(PZ32, PZ32, 0), (NAN32, PZ32, 0), (NZ32, PZ32, 0), (PZ32, NAN32, 1), (PZ32, NZ32, 1), (NAN32, f32b(1.0), 0),
+       (NZ32, NZ32, 1), (f32b(1.0), NZ32, -1), (f32b(1.0), PZ32, -1)]
+A2F = [(PZ32, PZ32), (NAN32, PZ32), (NZ32, PZ32), (PZ32, NAN32), (NZ32, NZ32), (NAN32, NAN32), (f32b(1.0), NZ32),
+       (f32b(1.0), PZ32), (0x7f800000, 0xffc00000), (0xff800000, 0x7f800000)]
+
+
+def key_c128(i):
+    re_, im_ = C128[i] if i < len(C128) else (f64b((i - 10) * 0.5), f64b(float(i % 5 - 2)))
+    return ("complex128", "%s,%s" % (ftoken(re_), ftoken(im_)))
+
+
+def key_cst(i):
+    re_, im_, n = CST[i] if i < len(CST) else (f32b(float(i // 3)), f32b(float(i % 3)), i % 2)
+    return ("cstruct", "%s,%s;%d" % (f32token(re_), f32token(im_), n))
+
+
+def key_a2f(i):
+    a, b = A2F[i] if i < len(A2F) else (f32b(i * 0.5), f32b(float(-(i % 4))) if i % 4 else 0)
+    return ("[2]float32", "%s,%s" % (f32token(a), f32token(b)))
 
 
 def key_str(i):
@@ -90,6 +143,23 @@ def _key_tok(kt, i):
         return ("[2]int", "%d,%d" % (i, -i))
     if kt == 5:
         return ("struct", "%d,s%d" % (i % 4, i // 4))
+    if kt == 6:
+        return key_c128(i)
+    if kt == 7:
+        return key_cst(i)
+    if kt == 8:
+        return key_a2f(i)
+    if kt == KT_IFACE:
+        n, d = divmod(i, 4)
+        if n >= NCELLS:
+            return ("ival", str(i))
+        if d == 0:
+            return ("*cell", str(n))
+        if d == 1:
+            return ("pbox", str(n))
+        if d == 2:
+            return ("ival", str(n))
+        return ("nil", "nil") if n == 0 else ("sbox", key_str(n))
     n, d = divmod(i, 10)
     if d == 0:
         return ("int", str(n))
@@ -120,8 +190,20 @@ CPLX = ["+0,+0", "-0,+0", "+0,-0", "-0,-0", "1,+0", "1,-0", "+0,2", "-0,2"]
 UNHASHABLE = {"[]int", "map[int]int", "func()", "wrap/[]int"}
 
 
+def parts(k):
+    """(floating-point part tokens, token of the other components) of a key compared part by part"""
+    fp, _, rest = k[1].partition(";")
+    return fp.split(","), rest
+
+
+def tok_is_nan(k):
+    if k[0] in PART_TY:
+        return "NaN" in parts(k)[0]
+    return k[1] == "NaN"
+
+
 def is_nan(kt, i):
-    return key_tok(kt, i)[1] == "NaN"
+    return tok_is_nan(key_tok(kt, i))
 
 
 def unhex(t):
@@ -161,13 +243,25 @@ def parse_key(tok, p, dyn=False):
         return ("[2]int", "%d,%d" % (int(tok[p + 1]), int(tok[p + 2]))), p + 3
     if t == "T":
         return ("struct", "%d,%s" % (int(tok[p + 1]), unhex(tok[p + 2]))), p + 3
+    if t in ("kC", "kB", "kI"):
+        return ({"kC": "*cell", "kB": "pbox", "kI": "ival"}[t], str(int(tok[p + 1]))), p + 2
+    if t == "kS":
+        return ("sbox", unhex(tok[p + 1])), p + 2
+    if t == "kN":
+        return ("nil", "nil"), p + 1
+    if t == "X":
+        return ("complex128", "%s,%s" % (ftoken(int(tok[p + 1])), ftoken(int(tok[p + 2])))), p + 3
+    if t == "V":
+        return ("cstruct", "%s,%s;%d" % (f32token(int(tok[p + 1])), f32token(int(tok[p + 2])), int(tok[p + 3]))), p + 4
+    if t == "P":
+        return ("[2]float32", "%s,%s" % (f32token(int(tok[p + 1])), f32token(int(tok[p + 2])))), p + 3
     return ("?", t), p + 1
 
 
 def kj(k):
-    if k[0] == "complex64":
-        re_, im_ = k[1].split(",")
-        return {"ty": k[0], "x": k[1], "re": re_, "im": im_}
+    if k[0] in PART_TY:
+        fp, rest = parts(k)
+        return {"ty": k[0], "x": k[1], "fp": fp, "rest": rest}
     return {"ty": k[0], "x": k[1]}
 
 
@@ -193,7 +287,18 @@ UNIVERSES = {
     "any": [(3, [10, 11, 9])],                                                # any(int(1)), any(int64(1)), any([]int)
     "anyc": [(3, [27, 37, 47])],                                               # any(complex64(+0,-0)), any(complex64(-0,-0)), any(complex64(1,+0))
     "anyf": [(3, [13, 18, 8])],                                               # any(-0.0), any(wrap{+0.0}), any(wrap{[]int})
+    # floating-point parts inside complex numbers / aggregates (key types 6..8)
+    "c128": [(6, [4, 2, 1])],                                                 # +0-0i, -0-0i (one key), NaN+0i
+    "c128i": [(6, [3, 8, 9])],                                                # +0+NaNi, -0+1i, +0+1i (one key)
+    "cst": [(7, [2, 0, 3])],                                                  # {-0+0i,0}, {+0+0i,0} (one key), {+0+NaNi,1}
+    "a2f": [(8, [1, 6, 7])],                                                  # {NaN,+0}, {1,-0}, {1,+0} (one key)
+    # interface with a method: keyer(&cells[1]), keyer(pbox{&cells[1]}), keyer(ival(1)); token W = write to the pointee
+    "ifc": [(KT_IFACE, [4, 5, 6])],
 }
+NEW_UNIVERSES = ("c128", "c128i", "cst", "a2f", "ifc")
+# quick tier: enumerated scripts replayed per (universe, key type); default 500.  (The plain universe on [2]int and struct
+# keys was 500 too before the part-wise and interface universes were added: the budget moved there.)
+EXH_CAP = {"c128": 240, "c128i": 240, "cst": 240, "a2f": 240, "ifc": 380, ("int", 4): 300, ("int", 5): 300}
 
 
 def probe(keys, inner=False):
@@ -230,6 +335,8 @@ def tokens_to_lines(toks, keys):
             lines.append("L")
         elif o == "C":
             lines.append("C")
+        elif o == "W":
+            lines.append("W %d" % keys[a - 1])
         elif o == "RS":
             rpos = len(lines)
             lines.append("R 0 0")
@@ -341,6 +448,8 @@ class Gen:
     def op(self, w, depth):
         """one operation chosen by weights w = (ins, del, get, len, clear, loop, nilmake)"""
         r = self.r
+        if self.kt == KT_IFACE and self.present and r.random() < 0.3:
+            self.emit("W %d" % r.choice(self.present))      # write to the variable a present pointer key points to
         x = r.random() * sum(w)
         for i, wi in enumerate(w):
             x -= wi
@@ -410,7 +519,7 @@ def gen_random(rng, profile, kt, vt, length, tag):
         # insert-heavy up to a target crossing the load-factor thresholds 8, 13.2^B (6.5 per bucket), then shrink, then regrow
         target = r.choice([9, 14, 27, 54, 106, 210, 418, 834]) if length < 2500 else max(834, length // 2)
         target = min(target, max(9, length // 2))
-        g = Gen(r, kt, vt, 4 * target + 16, nan_budget=3)
+        g = Gen(r, kt, vt, 4 * target + 16, nan_budget=3 if kt < 6 else 6)
         g.make() if r.random() < 0.8 else g.emit("M 0")
         g.nil = False
         phase_up = True
@@ -583,6 +692,73 @@ def gen_random(rng, profile, kt, vt, length, tag):
     return sc
 
 
+# --------------------------------------------------------------------------- fixed histories (seed-independent keys)
+
+def fixed_nangrow():
+    """A range loop over a map that holds N NaN-keyed entries (NaN = a key with a NaN in some floating-point part) and
+    three ordinary ones; the body run after the J-th produced entry inserts B fresh keys (the table grows at least once
+    while the loop is running), looks up and deletes NaN keys (no effect).  Every entry present at the start must still be
+    produced exactly once.  Same scripts on every run: keys fix:nangrow:<key type>:<value type>:n<N>.b<B>.j<J>"""
+    out = []
+    for kt in NAN_KT:
+        nanidx = [i for i in range(120) if is_nan(kt, i)][:6]
+        if kt >= 6:
+            variants = [(n, b, j, 1) for n in (4, 7, 8, 12) for b in (9, 40) for j in (1, 3)] + \
+                       [(30, 40, 1, 1), (7, 9, 1, 0), (7, 40, 3, 0), (7, 9, 1, 2), (7, 40, 3, 2), (12, 120, 2, 2)]
+        else:       # float64 and any: their NaN keys are also in the seeded "nan" histories
+            variants = [(4, 9, 1, 1), (8, 40, 3, 1), (12, 40, 1, 1), (7, 9, 1, 0), (7, 40, 3, 2), (12, 120, 2, 2)]
+        for (n, b, j, vt) in variants:
+            lines = ["M 0"]
+            v = 0
+            for i in range(n):
+                v += 1
+                lines.append("I %d %d" % (nanidx[i % len(nanidx)], v))
+            for k in (0, 2, 4):
+                v += 1
+                lines.append("I %d %d" % (k, v))
+            lines += ["L", "R 0 0", "@ %d" % j]
+            for i in range(b):
+                v += 1
+                lines.append("I %d %d" % (200 + i, v))
+            lines += ["G %d" % nanidx[0], "D %d" % nanidx[-1], "L", "E", "L", "R 0 0", "E"]
+            sc = Script(kt, vt, lines, "fix:nangrow:%s:%s:n%d.b%d.j%d" % (KT[kt], VT[vt], n, b, j), "fix:nangrow")
+            sc.maxkey = 200 + b
+            out.append(sc)
+    return out
+
+
+def fixed_poke():
+    """map[keyer]V (interface with a method) with keys of the pointer-shaped dynamic types *cell and struct{p *cell}, an
+    integer, a string struct and nil: the variables the pointer keys point to are written between storing a key and using
+    it again; every key must still be found, re-assigning must not add an entry, delete must remove it.
+    keys fix:poke:iface:<value type>:n<N>[.loop]"""
+    out = []
+    for (n, vt, loop) in [(3, 1, False), (8, 1, False), (8, 0, False), (8, 2, False), (20, 1, False), (60, 1, False), (200, 1, False),
+                          (8, 1, True), (60, 2, True)]:
+        keys = list(range(n))
+        lines = ["M 0"]
+        v = 0
+        for k in keys:
+            v += 1
+            lines.append("I %d %d" % (k, v))
+        lines += ["L"] + ["W %d" % k for k in keys if k % 4 == 0]
+        lines += ["G %d" % k for k in keys] + ["L"]
+        if loop:
+            lines += ["R 0 0", "@ 2"] + ["W %d" % k for k in keys if k % 4 == 0] + ["I %d %d" % (k, 1000 + k) for k in keys[:12]]
+            lines += ["@ 3"] + ["D %d" % k for k in keys[:12:2]] + ["E", "L"]
+        for k in keys:
+            v += 1
+            lines.append("I %d %d" % (k, v))           # re-assign: no new entry
+        lines += ["L"] + ["W %d" % k for k in keys if k % 4 == 0]
+        lines += ["H %d" % k for k in keys[: 16]]
+        lines += ["D %d" % k for k in keys[::2]] + ["L", "R 0 0", "E"]
+        lines += ["G %d" % k for k in keys[: 16]]
+        sc = Script(KT_IFACE, vt, lines, "fix:poke:iface:%s:n%d%s" % (VT[vt], n, ".loop" if loop else ""), "fix:poke")
+        sc.maxkey = n
+        out.append(sc)
+    return out
+
+
 # --------------------------------------------------------------------------- running the interpreter, log -> trace
 
 def run_scripts(exe, scripts, hdr, rd, label, timeout):
@@ -660,6 +836,9 @@ def to_events(sc, log):
             h = t[2:6]
         elif c == "C":
             e = {"o": "clear", "r": R.get(t[1], "?")}
+            h = t[2:6]
+        elif c == "W":
+            e = {"o": "poke", "k": kj(key_tok(kt, int(t[1])))}
             h = t[2:6]
         elif c == "M":
             e = {"o": "make"}
@@ -809,19 +988,22 @@ def build_plan(rng, thorough):
     """(profile, key type, value type, length) of every seeded random history"""
     if thorough:
         plan = []
-        for kt in range(6):
+        for kt in range(NKT):
             for vt in range(3):
                 for prof in PROFILES:
-                    if prof == "nan" and kt not in (2, 3):
+                    if prof == "nan" and kt not in NAN_KT:
                         continue
-                    for rep in range(3):
+                    if kt >= 6 and prof == "churn":
+                        continue
+                    for rep in range(3 if kt < 6 or prof == "grow" else 1):
                         ln = rng.choice([60, 150, 400, 900, 1500, 3000])
                         if prof == "churn":
                             ln = rng.choice([1500, 3000, 6000])
                         plan.append((prof, kt, vt, ln))
         plan += [("wipe", kt, vt, ln) for kt in range(6) for vt in (0, 1) for ln in (3000, 6000)]
         plan += [("big", 0, 1, 7000), ("big", 1, 0, 5000), ("big", 3, 2, 5000), ("big", 2, 1, 3000), ("big", 4, 2, 3000),
-                 ("big", 5, 0, 3000)]
+                 ("big", 5, 0, 3000), ("big", 6, 1, 3000)]
+        plan += [("wipe", kt, 1, 3000) for kt in (6, 7, 8, 9)]
     else:
         plan = []
         combos = [(kt, vt) for kt in range(6) for vt in range(3)]
@@ -844,6 +1026,15 @@ def build_plan(rng, thorough):
         plan.append(("wipe", 0, 1, 3000))
         plan.append(("wipe", 1, 0, 3000))
         plan.append(("wipe", 3, 1, 3000))
+        # floating-point parts inside complex numbers / aggregates: growth inside loops while NaN entries are present
+        for kt in (6, 7, 8):
+            plan.append(("grow", kt, rng.choice([1, 1, 2, 0]), rng.choice([500, 900])))
+            plan.append(("nan", kt, 1, 300))
+            plan.append((rng.choice(["mixed", "clearloop"]), kt, rng.randrange(3), rng.choice([100, 250])))
+        # interface keys with methods and pointer-shaped dynamic types, pointees written on the way
+        plan.append(("grow", KT_IFACE, rng.randrange(3), rng.choice([500, 900])))
+        plan.append(("mixed", KT_IFACE, rng.randrange(3), 250))
+        plan.append(("clearloop", KT_IFACE, 1, 200))
     return plan
 
 
@@ -852,11 +1043,13 @@ def reached(evlists):
     cover = {"doubling_growths": 0, "same_size_growths": 0, "max_B": 0, "mutations_inside_range_loops": 0,
              "loops_started_while_growing": 0, "growths_started_inside_a_loop": 0, "yields_while_growing": 0,
              "loops_started_during_same_size_growth": 0, "nan_entries_produced_by_loops": 0, "unhashable_panics": 0,
-             "nil_map_write_panics": 0, "max_entries": 0}
+             "nil_map_write_panics": 0, "max_entries": 0, "nan_aggregate_entries_produced_by_loops": 0,
+             "nan_aggregate_entries_produced_after_growth_inside_the_loop": 0, "pointee_writes_of_pointer_keys": 0}
     for ev in evlists:
         pB, pg, po = None, 0, 0
         depth = 0
         same = False
+        grew = False         # a growth started inside the outermost running loop
         for e in ev:
             o = e["o"]
             if o == "rs":
@@ -867,13 +1060,21 @@ def reached(evlists):
                         cover["loops_started_during_same_size_growth"] += 1
             elif o == "re":
                 depth -= 1
+                if depth == 0:
+                    grew = False
             elif o == "y":
                 if e["hg"]:
                     cover["yields_while_growing"] += 1
                 if e["k"]["x"] == "NaN":
                     cover["nan_entries_produced_by_loops"] += 1
+                elif "fp" in e["k"] and "NaN" in e["k"]["fp"]:
+                    cover["nan_aggregate_entries_produced_by_loops"] += 1
+                    if grew:
+                        cover["nan_aggregate_entries_produced_after_growth_inside_the_loop"] += 1
             elif depth > 0 and o in ("ins", "del", "clear"):
                 cover["mutations_inside_range_loops"] += 1
+            elif o == "poke" and e["k"]["ty"] in PTR_TY:
+                cover["pointee_writes_of_pointer_keys"] += 1
             if o in ("ins", "del", "get1", "get2") and e["r"] == "panic":
                 if e["k"]["ty"] in UNHASHABLE:
                     cover["unhashable_panics"] += 1
@@ -892,6 +1093,7 @@ def reached(evlists):
                     started, same = True, True
                 if started and depth > 0:
                     cover["growths_started_inside_a_loop"] += 1
+                    grew = True
             if not e["hg"]:
                 same = False
             cover["max_B"] = max(cover["max_B"], e["hB"])
@@ -994,7 +1196,7 @@ def check(chk):
             r2 = random.Random(sd * 31 + kt)
             if exh_cap is None:
                 # thorough: the +0/-0/NaN and the mixed-dynamic-type universes completely; seeded samples of the others
-                cap = {"f64": None, "any": None, "anyf": 20000, "anyc": 20000}.get(u, 30000 if kt == 0 else 10000)
+                cap = {"f64": None, "any": None, "anyf": 20000, "anyc": 20000, "c128": None}.get(u, 30000 if kt == 0 else 10000)
                 if cap is not None:
                     sel = sorted(r2.sample(names, min(len(names), cap)))
             if exh_cap is not None:
@@ -1003,7 +1205,7 @@ def check(chk):
                 sshort = set(short)
                 rest = [n for n in names if n not in sshort]
                 r2.shuffle(rest)
-                sel = short + rest[:max(0, exh_cap - len(short))]
+                sel = short + rest[:max(0, EXH_CAP.get(u, EXH_CAP.get((u, kt), exh_cap)) - len(short))]
             selections.append((u, kt, keys, sel))
     n_exh = sum(len(s[3]) for s in selections)
 
@@ -1020,12 +1222,14 @@ def check(chk):
     plan = build_plan(rng, thorough)
     rnd_scripts = [gen_random(random.Random(sd * 7919 + i), prof, kt, vt, ln, "seed%d.%d.%d" % (sd, i, ln))
                    for i, (prof, kt, vt, ln) in enumerate(plan)]
-    C.log("scripts: %d exhaustive (of %d enumerated), %d random with %d ops" % (
-        n_exh, n_exh_total, len(rnd_scripts), sum(len(s.lines) for s in rnd_scripts)))
+    fix_scripts = fixed_nangrow() + fixed_poke()
+    C.log("scripts: %d exhaustive (of %d enumerated), %d random with %d ops, %d fixed with %d ops" % (
+        n_exh, n_exh_total, len(rnd_scripts), sum(len(s.lines) for s in rnd_scripts),
+        len(fix_scripts), sum(len(s.lines) for s in fix_scripts)))
 
     # ---- key universe self-test of the harness (interpreter's keys = this driver's keys)
     maxk = {}
-    for sc in rnd_scripts:
+    for sc in rnd_scripts + fix_scripts:
         maxk[sc.kt] = max(maxk.get(sc.kt, 0), min(sc.maxkey, 3000))
     for (u, kt, keys, _) in selections:
         maxk[kt] = max(maxk.get(kt, 0), max(keys))
@@ -1178,12 +1382,12 @@ def check(chk):
             for lo in range(0, len(names), 40000):
                 run_batch(ex_scripts(u, kt, keys, names[lo:lo + 40000]), first)
                 first = False
-        run_batch(rnd_scripts, False)
+        run_batch(fix_scripts + rnd_scripts, False)
     else:
         batch = []
         for (u, kt, keys, names) in selections:
             batch += ex_scripts(u, kt, keys, names)
-        run_batch(batch + rnd_scripts, True)
+        run_batch(batch + fix_scripts + rnd_scripts, True)
     if len(tot["neg"]) < 7:
         raise C.Undecided("could not construct all negative controls: %s" % sorted(tot["neg"]))
 
@@ -1198,25 +1402,31 @@ def check(chk):
     cover = tot["cover"]
     must = ["doubling_growths", "same_size_growths", "mutations_inside_range_loops", "loops_started_while_growing",
             "growths_started_inside_a_loop", "yields_while_growing", "nan_entries_produced_by_loops", "unhashable_panics",
-            "nil_map_write_panics"]
+            "nil_map_write_panics", "nan_aggregate_entries_produced_by_loops",
+            "nan_aggregate_entries_produced_after_growth_inside_the_loop", "pointee_writes_of_pointer_keys"]
     if any(cover[k] == 0 for k in must):
         raise C.Undecided("generated histories did not reach: %s" % [k for k in must if cover[k] == 0])
     chk.cov["traces_validated_against_impl"] = tot["n_impl"]
     chk.cov["evaluations"] = tot["evs"]
     chk.cov["distinct_nontrivial"] = len(tot["distinct"])
     chk.cov["histories"] = {"exhaustive_scripts_enumerated": n_exh_total, "exhaustive_replayed": n_exh,
-                            "random": len(rnd_scripts), "reference_histories_validated": tot["ref"],
+                            "random": len(rnd_scripts), "fixed_histories": len(fix_scripts),
+                            "reference_histories_validated": tot["ref"],
                             "negative_controls": sorted(tot["neg"]), "rejected": tot["rejected"], "crashes": tot["crashes"]}
     chk.cov["reached"] = cover
     chk.cov["conformance_real_vs_MapGrowth"] = drift
     chk.cov["configs"] = labels
-    chk.cov["rule"] = ("history = one script run by the llgo-compiled interpreter on one map[K]V (6 key types x 3 value sizes): every "
+    chk.cov["rule"] = ("history = one script run by the llgo-compiled interpreter on one map[K]V (10 key types x 3 value sizes): every "
                        "insert/delete/lookup/len/clear/make/range step with its observed result, mutations inside range bodies; "
                        "evaluations = logged map operations judged by FiniteMapTrace; distinct = distinct recorded histories "
                        "(event sequences incl. iteration order); exhaustive part = every script of <= %d tokens over 3 keys "
-                       "enumerated by TLC from FiniteMapMC for 4 key universes (plain, +0/-0/NaN, mixed dynamic types with an "
-                       "unhashable one, interface-wrapped floats), each followed by a probe of every key, len and a complete loop"
-                       % gen_n)
+                       "enumerated by TLC from FiniteMapMC for 10 key universes (plain, +0/-0/NaN, mixed dynamic types with an "
+                       "unhashable one, complex and interface-wrapped floats in interfaces, and signed zeros / NaN in a part of a "
+                       "complex128, struct{complex64;int32} and [2]float32 key, interface-with-method keys of pointer-shaped dynamic types "
+                       "with writes to the pointee), each followed by a probe of every key, len and a "
+                       "complete loop; fixed part = range loops over maps with NaN-keyed entries whose body makes the table grow "
+                       "(5 key types) and map[interface{id() int}]V histories that write to the variables their pointer keys point to "
+                       "(both seed-independent)" % gen_n)
     chk.assumptions += [
         "the interpreter's key construction (numbers -> keys) agrees with the driver's table: checked on every run against both builds",
         "a value read back is reduced to one int by the interpreter (all 17 words of the 136-byte value are compared first)",
